@@ -269,7 +269,8 @@ def scan_order_worker(seed):
     from pathlib import Path
 
     rng = random.Random(seed)
-    tree = sc.gen_tree(rng, comps=["a", "b", "gen", "gen_x", "tests", "t2", "m"])
+    # twins (x.py next to x/) are generated here: both carry the same module name, so which one is met first must not matter
+    tree = sc.gen_tree(rng, comps=["a", "b", "gen", "gen_x", "tests", "t2", "m"], shadow=True)
     sc.fill_sources(rng, tree, externals=True)
     names = sorted({p.split("/")[-1] for p in tree if "/" in p})
     pats = ["*" + rng.choice(names) for _ in range(rng.randint(1, 3))] + ["*__pycache__*"]
